@@ -80,6 +80,8 @@ def c_vs_machine(progs, args, nstates, rng, named=None, fuel=300000, trace=False
         ctext.append(t)
         cw[pid] = w
     cr = run_csem(''.join(ctext)) if ctext else {}
+    from .features import features
+    wide_lit = {pid: 'const_wider_than_16' in features(progs[pid]) for pid in meta}
     for pid, m in meta.items():
         o = out[pid]
         o['meta'] = m
@@ -90,7 +92,12 @@ def c_vs_machine(progs, args, nstates, rng, named=None, fuel=300000, trace=False
             if a is None or b is None:
                 o['cases'].append((k, 'missing', None))
                 continue
-            if a['tag'] == 'ok':
+            if a['tag'] == 'ok' and wide_lit.get(pid):
+                # an all-literal operand whose exact value needs more than 16 bits feeds >>, / or a comparison: C types
+                # literals above 32767 as long and the compiler folds in 32 bits, Src/CSem.v has 16-bit arithmetic only:
+                # the reference does not decide these runs
+                o['cases'].append((k, 'undecided', 'literal arithmetic wider than 16 bits'))
+            elif a['tag'] == 'ok':
                 if b['tag'] == 'halt':
                     d = expected_vs_machine(cw[pid], a, b, m['layout'], m['watch'])
                     if d:
